@@ -18,7 +18,9 @@ OBLIGATIONS = [
 CANARIES = [dict(harness='verif_frag::walk::canary_walk_must_fail', units=['walk']), dict(harness=GW + 'canary_gates_must_fail', units=['gate_report']), dict(harness=GD + 'canary_depth_must_fail', units=['gate_depth']), dict(harness='verif_frag::traversal::canary_traversal_must_fail', units=['traversal'])]
 ASSUMPTIONS = [
     'skeleton of visit_dir (unverified, T5): entries of a directory at depth d are reported exactly under the report gate and each sub-directory is visited exactly under the descend gate',
-    'canonical_depth >= base_depth (false when a followed symlink leads above the root): required by C01.depth.formula, not proved',
+    'canonical_depth >= base_depth is no longer needed for panic freedom (saturating subtraction since fix 2072806); the LEVEL of entries behind a followed link is the canonical-depth difference, not the position of the link',
     'u32 machine arithmetic reasoned about bit-precisely; depth < u32::MAX assumed in the descend gate oracle',
 ]
 NOT_COVERED = ['trees other than the scripted one (6 nodes, 3 levels)', 'symlinks listed but not descended, symlink cycles', 'default root, regexp roots', 'calc_depth / canonical_path (std path handling)', 'I/O errors, ignore files']
+
+HARNESS_TIMEOUT = 900
